@@ -303,6 +303,19 @@ def c06_scope(tier):
     P.append(("two-chests", CH + 'Entity c2 = place("steel-chest", 14, 10, {read_contents: 1});\nEntity l = place("small-lamp", 0, 0);\n'
               'l.enable = ch.output["iron-plate"] + c2.output["iron-plate"] > 9;\n'))
     P.append(("chest-any", CH + 'Bundle c = ch.output;\nEntity l = place("small-lamp", 0, 0);\nl.enable = any(c) > 100;\n'))
+    # the report of an entity read through a parameter, by two readers, next to another signal, by the entity itself
+    P.append(("chest-through-parameter", 'func watch(Entity e, int px) {\n  Entity l = place("small-lamp", px, 0);\n  l.enable = e.output["iron-plate"] > 10;\n}\n'
+              + CH + 'watch(ch, 0);\nwatch(ch, 2);\n'))
+    P.append(("chest-two-members", CH + 'Entity a = place("small-lamp", 0, 0);\nEntity b = place("small-lamp", 2, 0);\na.enable = ch.output["iron-plate"] > 10;\n'
+              'b.enable = ch.output["copper-plate"] > 5;\n'))
+    P.append(("chest-plus-signal", CH + X + 'Entity a = place("small-lamp", 0, 0);\na.enable = ch.output["iron-plate"] + x > 10;\n'))
+    P.append(("chest-all-filter", CH + 'Bundle c = ch.output;\nBundle f = (c > 10) : c;\nEntity a = place("small-lamp", 0, 0);\na.enable = any(f) > 0;\n'
+              'Entity b = place("small-lamp", 2, 0);\nb.enable = all(c) > 3;\n'))
+    P.append(("two-chests-compared", CH + 'Entity c2 = place("steel-chest", 14, 10, {read_contents: 1});\nEntity a = place("small-lamp", 0, 0);\n'
+              'a.enable = ch.output["iron-plate"] > c2.output["iron-plate"];\nSignal d = ch.output["copper-plate"] - c2.output["copper-plate"];\n'
+              'Entity b = place("small-lamp", 2, 0);\nb.enable = d > 0;\n'))
+    P.append(("tank-pump", 'Entity t = place("storage-tank", 10, 10);\nEntity p = place("pump", 0, 0);\np.enable = t.output["water"] > 1000;\n'))
+    P.append(("own-report", 'Entity ins = place("inserter", 0, 0, {read_hand_contents: 1});\nins.enable = ins.output["iron-plate"] < 3;\n'))
     # balanced loader: one merge of all chests feeds an average; per chest a merge of average and chest
     for n, pad in ((2, 0), (3, 5)) if tier == "quick" else ((2, 0), (2, 5), (3, 0), (3, 5), (4, 0), (5, 3)):
         L = [f'Signal pad{k} = ("signal-P", {k + 1});' for k in range(pad)]
